@@ -266,7 +266,7 @@ jose_jws_ver_io(jose_cfg_t *cfg, const json_t *jws, const json_t *sig,
         for (size_t i = 0; i < json_array_size(jwk); i++) {
             const json_t *s = json_is_object(sig) ? sig : json_array_get(sig, i);
             const json_t *k = json_array_get(jwk, i);
-            ios[j] = jose_jws_ver_io(cfg, jws, s, k, false);
+            ios[j] = jose_jws_ver_io(cfg, jws, s, k, all);
             if (ios[j])
                 j++;
             else if (all)
